@@ -66,6 +66,20 @@ impl Fault {
     }
 }
 
+/// fault class used in the older-segment-tail signature: truncate | flip@frame-length | flip@payload | flip@crc | ...
+fn tail_class(f: &Fault) -> String {
+    match f {
+        Fault::Truncate { .. } => "truncate".into(),
+        Fault::Delete { .. } => "delete".into(),
+        Fault::Flip { what, .. } => {
+            let field = what.split(':').nth(1).unwrap_or("");
+            let field = field.trim_end_matches("-last").trim_end_matches("-inner");
+            let field = if field.starts_with("payload") { "payload" } else { field };
+            format!("flip@{}", field)
+        }
+    }
+}
+
 fn file_role(name: &str, manifest: &Manifest) -> String {
     if name == "MANIFEST" {
         return "manifest".into();
@@ -158,7 +172,19 @@ fn enumerate_faults(dir: &Path, manifest: &Manifest, rng: &mut Rng, thorough: bo
                     let len = rng.range(1, n as u64 - 1) as usize;
                     faults.push(Fault::Truncate { file: name.clone(), len, what: format!("{}:random-len", role) });
                     let off = rng.usize_below(n);
-                    flip(off, "random", rng, &mut faults);
+                    // a seeded offset is labelled by the structural field it lands in
+                    let mut label = if off < 4 { "magic".to_string() } else { "unframed".to_string() };
+                    for (i, (p, sz)) in frames.iter().enumerate() {
+                        let tag = if i + 1 == frames.len() { "last" } else { "inner" };
+                        if off >= *p && off < p + 4 {
+                            label = format!("frame-length-{}", tag);
+                        } else if off >= p + 4 && off < p + 4 + sz {
+                            label = format!("payload-any-{}", tag);
+                        } else if off >= p + 4 + sz && off < p + 8 + sz {
+                            label = format!("crc-{}", tag);
+                        }
+                    }
+                    flip(off, &label, rng, &mut faults);
                 }
             }
         } else {
@@ -490,7 +516,7 @@ fn run_case(seed: u64, idx: usize, thorough: bool, out: &mut Out) {
                 }
                 let older_tail = older_tail_states.iter().any(|(seg, m)| seg == f.file() && diff_models(m, &got).is_empty());
                 out.violation(
-                    if older_tail { "older-segment-tail-silently-dropped".to_string() } else { format!("damaged-state-accepted|{}", f.class()) },
+                    if older_tail { format!("older-segment-tail-silently-dropped|{}", tail_class(f)) } else { format!("damaged-state-accepted|{}", f.class()) },
                     format!(
                         "case {}: after {} strict recovery SUCCEEDS with a different collection: {:?}",
                         idx,
@@ -721,7 +747,7 @@ fn server_case(seed: u64, idx: usize, thorough: bool, bin: &str, rt: &std::sync:
         let older_tail = older_tail_states.iter().any(|(seg, m)| seg == f.file() && *m == got);
         let role = file_role(f.file(), &manifest);
         out.violation(
-            if older_tail { "older-segment-tail-silently-dropped".to_string() } else { format!("server-started-with-damaged-state|{}|{}", role, f.class().split('@').next().unwrap_or("")) },
+            if older_tail { format!("older-segment-tail-silently-dropped|{}", tail_class(f)) } else { format!("server-started-with-damaged-state|{}|{}", role, f.class().split('@').next().unwrap_or("")) },
             format!(
                 "case {}: after {} ({}) the server STARTS and serves ids {:?} instead of {:?}",
                 idx,
